@@ -620,6 +620,9 @@ public:
                 v_temp.resize(nof_vertices, nof_groups);
                 initialization::init_tensor_rows_random(v_list, v_temp, random_generator);
             }
+            // Start each realization from a zeroed matrix: u_temp may hold the caller's
+            // previous content of u after a swap, and only the rows in u_list are redrawn
+            u_temp.resize(nof_vertices, nof_groups);
             initialization::init_tensor_rows_random(u_list, u_temp, random_generator);
 #ifdef MULTITENSOR_VERIF
             if (verif::hooks().realization_start)
